@@ -319,8 +319,27 @@ func classify(v ssa.Value, env phiEnv, depth int) (valClass, ssa.Value) {
 		if neverNilCall != nil && neverNilCall(v) {
 			return clsNonNil, v
 		}
+	case *ssa.UnOp:
+		// a local variable that lives in memory (a named result next to a defer): the one store that reaches the load
+		if a, ok := x.X.(*ssa.Alloc); ok && x.Op == token.MUL && depth < 3 {
+			if sts := reachingStores(x, a); len(sts) == 1 && sts[0].Parent() == x.Parent() {
+				return classify(sts[0].Val, env, depth+1)
+			}
+		}
+		// a package-level error sentinel (os.ErrClosed, io.EOF, errShortPacket …): assigned once, never nil
+		if g, ok := x.X.(*ssa.Global); ok && x.Op == token.MUL && isErrorType(x.Type()) {
+			n := g.Name()
+			if strings.HasPrefix(n, "Err") || strings.HasPrefix(n, "err") || n == "EOF" {
+				return clsNonNil, v
+			}
+		}
 	}
 	return clsUnknown, v
+}
+
+func isErrorType(t types.Type) bool {
+	n := namedOf(t)
+	return n != nil && n.Obj().Pkg() == nil && n.Obj().Name() == "error"
 }
 
 func sameConst(a, b ssa.Value) bool {
